@@ -149,6 +149,11 @@ pub fn iovec_length(rng: &mut Rng, small_only: bool) -> usize {
             _ => rng.range(1, 300),
         };
     }
+    if rng.chance(1, 150) {
+        // right around a power of two (the arena's chunk sizes are 4 KiB .. 1 MiB)
+        let k = rng.range(12, 20);
+        return (1usize << k) + rng.range(0, 6) - 3;
+    }
     match rng.below(100) {
         0..=24 => rng.range(1, 8),
         25..=39 => rng.range(62, 66),
